@@ -499,7 +499,7 @@ def _target_template(rnd, name, others, depth=0):
         elif r < 0.45:
             nm = rnd.choice(["v", "_p", "x", "w2"])
             body.append(J.Set(nm, rnd.choice([C(rnd.randint(1, 3)), N(rnd.choice(vars_))])))
-        elif r < 0.7:
+        elif r < 0.64:
             nm = rnd.choice(["m", "_hid", "m2"])
             mb = [J.Text(f"<{nm}>"), J.Out(N(rnd.choice(vars_ + ["p0"])))]
             if rnd.random() < 0.3:
@@ -508,14 +508,30 @@ def _target_template(rnd, name, others, depth=0):
                         if True else None)
             if body[-1]["defaults"] and not body[-1]["params"]:
                 body[-1]["defaults"] = []
-        elif r < 0.8 and others and depth < 2:
+        elif r < 0.74 and others and depth < 2:
             o = rnd.choice(others)
             if rnd.random() < 0.5:
                 body.append(J.Import(C(o), "sub", with_context=rnd.random() < 0.4))
                 body.append(J.Out(J.Getattr(N("sub"), rnd.choice(["v", "m", "_p"]))))
             else:
                 body.append(J.Include(C(o), with_context=rnd.random() < 0.6))
-        elif r < 0.88:
+        elif r < 0.86 and others and depth < 2:
+            # a top-level import binds a name the template has exported before (no longer exported), or imports a name
+            # under an alias while the template exports its own variable of the original name (still exported)
+            o = rnd.choice(others)
+            k = rnd.random()
+            if k < 0.4:
+                body.append(J.Set("v", C(rnd.randint(4, 6))))
+                body.append(J.FromImport(C(o), [(rnd.choice(["m", "v", "w2"]), "v")], with_context=rnd.random() < 0.3))
+            elif k < 0.8:
+                nm = rnd.choice(["v", "w2", "m"])
+                body.append(J.Set(nm, C(rnd.randint(4, 6))))
+                body.append(J.FromImport(C(o), [(nm, "al_" + nm)] + ([("m2", "w2")] if rnd.random() < 0.3 else []), with_context=rnd.random() < 0.3))
+            else:
+                body.append(J.Set("sub", C(7)))
+                body.append(J.Import(C(o), "sub", with_context=rnd.random() < 0.3))
+            body.append(J.Out(N(rnd.choice(["v", "w2", "al_v"]))))
+        elif r < 0.9:
             body.append(J.Out(J.Test(N(rnd.choice(vars_)), "defined")))
         elif r < 0.94:
             # a missing template inside an existing target: never excused by the outer `ignore missing`
@@ -548,7 +564,7 @@ def _use_site(rnd, tnames, tplobjs=False):
         alias = rnd.choice(["mod", "mod", "_m"])
         st = [J.Import(rnd.choice([C(t), C(t), N("tplname"), C("nope")]), alias, with_context=rnd.random() < 0.4)]
         for _ in range(rnd.randint(1, 3)):
-            a = rnd.choice(["m", "m2", "v", "_p", "_hid", "x", "sub", "zz"])
+            a = rnd.choice(["m", "m2", "v", "_p", "_hid", "x", "sub", "zz", "v", "w2", "al_v"])
             if a in ("m", "m2", "_hid") and rnd.random() < 0.8:
                 st.append(J.Out(J.Call(J.Getattr(N(alias), a), [C(4)] if rnd.random() < 0.4 else [])))
             else:
@@ -827,6 +843,123 @@ def expr_cases(seed, n, start_id=1, depth=3, auto=None, rich=False, numeric=Fals
         c = J.make_case(start_id + i, {"main": J.template([J.Out(e)], a)}, "main", datas, objs=EXPR_OBJS,
                         undefined=rnd.choice(["default", "default", "default", "strict", "chainable"]))
         c["emit_values"] = True
+        cases.append(c)
+    return cases
+
+
+# ---------------------------------------------------------------------------
+# lazy filters (map / select / reject / selectattr / rejectattr): always written together with a consumer that
+# async mode documents for async iterators (list, join, sum, first, a for loop, another lazy filter)
+# ---------------------------------------------------------------------------
+
+def lazy_datas():
+    row = lambda a, k=None: J.vdict([(J.vstr("a"), a)] + ([(J.vstr("k"), k)] if k is not None else []))
+    ds = []
+    for d in expr_datas():
+        d = dict(d)
+        d["rows"] = J.vlist([row(J.vint(1), J.vstr("a<")), row(J.vint(4)), row(J.vint(3), J.vstr(""))])
+        d["mixed"] = J.vlist([J.vint(2), J.vstr("s&"), J.VNONE, J.vint(0), J.vint(5), J.vlist([J.vint(1)])])
+        d["ag1"] = J.vlist([J.vint(1), J.vint(2), J.vint(3)])
+        d["ag2"] = J.vlist([])
+        ds.append(d)
+    ds[1]["rows"] = J.vlist([J.vobj("o1"), row(J.vstr("x<"), J.vint(2)), J.vobj("o2")])
+    ds[1]["mixed"] = J.vlist([], tup=True)
+    ds[1]["ag1"] = J.vlist([J.vint(4), J.vint(0), J.vint(7), J.vint(2)])
+    ds[2]["rows"] = J.vlist([])
+    ds[2]["mixed"] = J.vlist([J.vint(3), J.vint(-1), J.vbool(True), J.vfloat(2.5)])
+    ds[2]["ag2"] = J.vlist([J.vint(6)])
+    return ds
+
+
+class LazyGen:
+    def __init__(self, rnd, aiter=False):
+        self.rnd, self.aiter = rnd, aiter
+
+    def source(self):
+        r = self.rnd
+        if self.aiter and r.random() < 0.6:
+            return N(r.choice(["ag1", "ag2"])), "num"
+        return r.choice([(N("l1"), "num"), (N("l1"), "num"), (N("l3"), "any"), (N("mixed"), "any"), (N("mixed"), "any"), (N("rows"), "rows"),
+                         (N("rows"), "rows"), (N("l2"), "num"), (N("d1"), "any"), (N("u1"), "any"), (N("z"), "any"), (N("i1"), "any"),
+                         (J.List([C(1), C(2), C(5)]), "num"), (J.Call(N("range"), [C(4)]), "num"), (N("n0"), "any")])
+
+    def test_args(self, kind):
+        r = self.rnd
+        opts = [[], [C("odd")], [C("even")], [C("string")], [C("number")], [C("defined")], [C("none")], [C("divisibleby"), C(2)],
+                [C("gt"), C(1)], [C("eq"), C(2)], [C("in"), J.List([C(1), C(2), C("")])], [C("ne"), N("i1")], [C("sequence")],
+                [C(">="), C(2)], [C("divisibleby"), N("z")], [C("lt"), C("q")]]
+        if kind == "num":
+            opts = [o for o in opts for _ in (0, 1)] + [[C("odd")], [C("gt"), C(2)], [C("divisibleby"), C(3)]]
+        return r.choice(opts)
+
+    def step(self, e, kind):
+        """One lazy filter applied to e: returns (expression, kind of the items)."""
+        r = self.rnd
+        k = r.random()
+        if kind == "rows":
+            if k < 0.45:
+                kw = [("attribute", r.choice([C("a"), C("k"), C("a"), C("b"), C(0)]))]
+                if r.random() < 0.5:
+                    kw.append(("default", r.choice([C("-"), C(0), C(None), N("s1")])))
+                return J.Filter(e, "map", [], kw), "any"
+            if k < 0.9:
+                a = [C(r.choice(["a", "k", "k", "b"]))]
+                if r.random() < 0.6:
+                    a += self.test_args("any")
+                return J.Filter(e, r.choice(["selectattr", "rejectattr"]), a), "rows"
+            return J.Filter(e, r.choice(["select", "reject"]), r.choice([[], [C("mapping")], [C("defined")]])), "rows"
+        if k < 0.45:
+            f = r.choice([[C("string")], [C("int")], [C("abs")], [C("e")], [C("default"), C("D<"), C(True)], [C("length")], [C("float")],
+                          [C("string")], [C("int"), C(9)], [C("first")], [C("join"), C("+")], [C("round")], [C("safe")]])
+            return J.Filter(e, "map", f), ("num" if f[0]["v"] in ("int", "abs", "length") else "any")
+        return J.Filter(e, r.choice(["select", "reject"]), self.test_args(kind)), kind
+
+    def lazy(self):
+        e, kind = self.source()
+        for _ in range(self.rnd.choice([1, 1, 1, 2, 2, 3])):
+            e, kind = self.step(e, kind)
+        return e, kind
+
+    def consumed(self):
+        r = self.rnd
+        e, kind = self.lazy()
+        k = r.random()
+        if k < 0.35: return J.Filter(e, "list")
+        if k < 0.65: return J.Filter(e, "join", r.choice([[], [C("|")], [N("s1")], [N("m1")]]))
+        if k < 0.8: return J.Filter(e, "first")
+        if k < 0.9: return J.Filter(e, "sum")
+        if k < 0.95: return J.Filter(J.Filter(e, "list"), r.choice(["length", "last", "sort", "max"]))
+        return J.Cond(e, C("T"), C("F"))            # an iterator object is true, whatever it would yield
+
+    def loop(self):
+        r = self.rnd
+        e, kind = self.lazy()
+        inner = [J.Out(N("x") if kind != "rows" else J.Getattr(N("x"), "a"))]
+        for _ in range(r.choice([0, 1, 2, 2])):
+            inner.append(J.Out(J.Getattr(N("loop"), r.choice(["index", "first", "last", "length", "revindex", "revindex0", "nextitem", "previtem"]))))
+            inner.append(J.Text("/"))
+        if r.random() < 0.25:
+            inner.append(J.If([J.Cmp(J.Getattr(N("loop"), "index"), ("eq", C(2)))], [[r.choice([J.BREAK, J.CONTINUE])]]))
+        inner.append(J.Text(","))
+        flt = J.Test(N("x"), "defined") if r.random() < 0.2 else None
+        return J.For(J.TName("x"), e, inner, [J.Text("EMPTY")] if r.random() < 0.5 else None, flt)
+
+
+def lazy_cases(seed, n, start_id=1, auto=None, aiter=False):
+    rnd = random.Random(seed)
+    g = LazyGen(rnd, aiter)
+    datas = lazy_datas()
+    cases = []
+    for i in range(n):
+        a = rnd.random() < 0.5 if auto is None else auto
+        if rnd.random() < 0.65:
+            body, ev = [J.Out(g.consumed())], not aiter
+        else:
+            body, ev = [g.loop()] + ([J.Text(" "), J.Out(g.consumed())] if rnd.random() < 0.3 else []), False
+        c = J.make_case(start_id + i, {"main": J.template(body, a)}, "main", datas, objs=EXPR_OBJS,
+                        undefined=rnd.choice(["default", "default", "strict", "chainable"]))
+        if ev:
+            c["emit_values"] = True
         cases.append(c)
     return cases
 
